@@ -692,6 +692,13 @@ class Run:
                 res = self.call(op, R.permute_rdms, e.obj)
         else:
             res = self.call(op, R.permute_rdms, e.obj, np.array(p, dtype=int))
+        # 'a permuted matrix and pattern descriptors': the 'index' entries move with their conditions
+        # like every other pattern descriptor (compared as text: the function stores them as strings)
+        src_index = [str(norm(v)) for v in e.obj.pattern_descriptors['index']]
+        got_index = [str(norm(v)) for v in res.pattern_descriptors['index']]
+        require(got_index == [src_index[i] for i in p],
+                "permute_rdms(%s): 'index' of the result is %s, the source's index %s permuted alike is %s"
+                % (p, got_index, src_index, [src_index[i] for i in p]), 'pdesc:permute_rdms:index')
         odesc = dict(e.model.odesc)
         odesc['p_inv'] = [int(i) for i in np.argsort(p)]
         model = e.model.clone(conds=[e.model.conds[i] for i in p], odesc=odesc)
